@@ -4,6 +4,7 @@
   Run with `lake env lean --run Main.lean`.
 -/
 import BB.Model.Codec
+import BB.Gen.KFloat
 
 open Lean BB BB.Codec
 
@@ -69,6 +70,25 @@ def seqField (field : String) (v : Int) (q : SeqSet) : SeqSet :=
 def setSeqSettings (s : Sequence) (pos w n j g : Int) : Sequence :=
   let q : SeqSet := ⟨w, n, 0, j, g⟩
   { s with sequencing := Dict.upsert s.sequencing pos q }
+
+/-- a Float that crosses the protocol as the decimal string of its IEEE-754 bit pattern -/
+def fBits (j : Json) : Float :=
+  match j with
+  | .str s => Float.ofBits (s.toNat?.getD 0).toUInt64
+  | _ => 0.0
+
+def jBits (x : Float) : Json := Json.str (toString x.toBits.toNat)
+
+/-- evaluate a generated Float kernel (BB.Gen.Flt, regenerated from PulseAtoms) on n points -/
+def pulseEval (fn : String) (args : List Float) (sr : Float) (n : Nat) : Option (List Float) :=
+  let nf := n.toFloat
+  match fn, args with
+  | "ramp", [a, b] => some ((List.range n).map (Gen.Flt.ramp a b sr nf))
+  | "sine", [f, a, o, ph] => some ((List.range n).map (Gen.Flt.sine f a o ph sr nf))
+  | "gaussian", [a, s, m, o] => some ((List.range n).map (Gen.Flt.gaussian a s m o sr nf))
+  | "gaussian_smooth_cutoff", [a, s, m, o] => some ((List.range n).map (Gen.Flt.gaussian_smooth_cutoff a s m o sr nf))
+  | "waituntil", [d] => some ((List.range n).map (Gen.Flt.waituntil d sr nf))
+  | _, _ => none
 
 def step (p : Pool) (op : Json) : Pool × Json :=
   let o := fStr op "op"
@@ -282,6 +302,10 @@ def step (p : Pool) (op : Json) : Pool × Json :=
           ((asArr (getField op "poss")).filterMap asInt?) ((asArr (getField op "vars")).map asVariation) with
       | .ok s' => (p.setSq (fStr op "to") s', jOk Json.null)
       | .error er => (p, jErr er)
+  else if o = "pulse.eval" then
+    match pulseEval (fStr op "fn") ((asArr (getField op "args")).map fBits) (fBits (getField op "SR")) (fInt op "n").toNat with
+    | some xs => (p, jOk (Json.arr (xs.map jBits).toArray))
+    | none => (p, Json.mkObj [("err", Json.str "bad-op")])
   else (p, Json.mkObj [("err", Json.str "bad-op")])
 
 def runProgram (ops : List Json) : List Json :=
